@@ -967,7 +967,7 @@ func c03r10(c *an.Ctx) {
 		}
 		res := flow.Run()
 		if res.Blowup {
-			c.Undecided(t.name + ": state space too large")
+			c.Undecided("%s", t.name + ": state space too large")
 			continue
 		}
 		for _, ret := range an.Returns(fn) {
